@@ -197,7 +197,7 @@ fn run(ops: &[Op], rng: &mut Rng) -> Option<String> {
                 if c <= m.first() { return None; }
                 let t = m.term(c - 1);
                 log.store.wl().compact(c).unwrap();
-                let keep = m.range(c, m.last() + 1); m.ents = keep; m.si = c - 1; m.st = t; m.bt_known = c == m.stor_last + 1;
+                let keep = m.range(c, m.last() + 1); m.ents = keep; m.si = c - 1; m.st = t; m.bt_known = true;   // Storage::term: the term of the entry before first_index is retained (fix 7cb0ad5)
             }
             Op::Restore(di, t) => {
                 if m.pending_snap.is_some() { return None; }
